@@ -601,6 +601,7 @@ tun_setip(const char *ip, const char *other_ip, int netbits)
 	char cmdline[512];
 	uint32_t netmask;
 	struct in_addr net;
+	struct in_addr checked;
 #ifndef LINUX
 	int r;
 #endif
@@ -623,8 +624,15 @@ tun_setip(const char *ip, const char *other_ip, int netbits)
 	netmask = netbits ? 0xffffffffU << (32 - netbits) : 0;
 	net.s_addr = htonl(netmask);
 
-	if (inet_addr(ip) == INADDR_NONE) {
+	/* Both addresses come from the server's login reply and end up on a
+	   command line: accept nothing but plain dotted quads (inet_addr()
+	   also takes "1", "0x0a.1", and anything followed by a space) */
+	if (inet_pton(AF_INET, ip, &checked) != 1) {
 		fprintf(stderr, "Invalid IP: %s!\n", ip);
+		return 1;
+	}
+	if (inet_pton(AF_INET, other_ip, &checked) != 1) {
+		fprintf(stderr, "Invalid IP: %s!\n", other_ip);
 		return 1;
 	}
 #ifndef WINDOWS32
